@@ -76,6 +76,12 @@ def normalizedEntry (F : Fn α) (k : Nat) (m : Mat α) (i j : Nat) : α :=
 def maxDiff (n k : Nat) (x y : Nat → Nat → α) : α :=
   maxAbs n fun i => maxAbs k fun j => x i j - y i j
 
+/-- how far the columns of an `n × k` matrix are from being orthonormal for the weights `w`:
+    `max_{c,c'} |Σ_i w_i m_ic m_ic' − δ_cc'|` -/
+def gramDefect (n k : Nat) (w : Nat → α) (m : Mat α) : α :=
+  maxAbs k fun c => maxAbs k fun c' =>
+    (sumN n fun i => w i * mget m i c * mget m i c') - (if c == c' then 1 else 0)
+
 /-! GSVD: `M = D₁^{-α₁} (A + α 11ᵀ/n_col) D₂^{-α₂}` -/
 
 def gsvdWeightRow (nCol : Nat) (a : Mat α) (reg : α) (i : Nat) : α := sumN nCol fun j => aReg nCol a reg i j
